@@ -1,7 +1,7 @@
 import Yuiv.Model.Res
 /-
-Prelude of the definitions that `tools/rs2lean_fn.py` (targets `fn:link`, `fn:invlink`; renderer tools/rs2lean_link.py)
-generates from yui-link/src/link/{crossing,link,path}.rs and inv_link.rs (hand-written, import-free, TRUSTED: it fixes how
+Prelude of the definitions that `tools/rs2lean_fn.py` (target `fn:link`; renderer tools/rs2lean_link.py)
+generates from yui-link/src/link/{crossing,link,path}.rs (hand-written, import-free, TRUSTED: it fixes how
 the Rust primitives and the types of OTHER crates that those files touch are read).
 
 * `usize` / `Edge` is `Nat` (additions are not checked: every value is a label or an index of the diagram), the
